@@ -50,7 +50,7 @@ REQUIRED = {
     "nodes1": ["@half1"], "nodes2": ["@half2"],
     "node_list1": ["@half1"], "node_list2": ["@half2"],
     "node_list": ["@half1"], "nodes": ["@half1"],
-    "n_bins": [4], "a": [0], "b": [1], "i": [1],
+    "n_bins": [12], "a": [0], "b": [1], "i": [1],
     "node": [0], "node1": [0], "node2": [2],
     "selected_phases": [[0]], "selected_months": [[0, 1]],
     "sequence": ["@range"], "link_attribute": ["@attr"],
@@ -73,7 +73,7 @@ VARIANTS = {
     "method": ["ECA"], "symmetrization": ["mean", "max", "min"],
     "window_type": ["retarded"],
     "tau_max": [2], "estimator": ["binning", "gauss"], "lag_mode": ["all"],
-    "cond_mode": ["mit"],
+    "cond_mode": ["mit"], "min_dist": [1],
 }
 
 
